@@ -11,19 +11,21 @@
    flags);  tree [flip]: Rtl bit of every option word toggled, Beginning<->End, Bol<->Eol, the literal
    of a Multi reversed (it is stored in text order), children lists NOT reordered.
 
-   Fragment [mirror_ok t] (hence the suffix _partial).  Excluded, with reasons proved below:
+   Fragment [mirror_ok t] (hence the suffix _partial).  Excluded:
      * the anchor EndZ — no anchor of the node language is its mirror image
        (C15_endz_no_mirror_anchor); under RE2/ECMAScript (endz_strict) EndZ = End and is covered
        (C15_*_endz_strict_partial);
-     * balancing groups (?<g-u>...) that record a capture (u <> -1 and g <> -1) — [balance_span]
-       (runner.go transferCapture) is NOT mirror-symmetric (C15_balance_example); pure pops (?<-u>...)
-       are covered;
      * single-character loops with a negative minimum (a well-formedness condition: the parser never
        produces them; with one the loop could step outside the text).
    Covered: One/Notone/Set, their greedy/lazy/atomic loops, Multi (with IgnoreCase), back-references,
-   all other anchors (incl. \G), Concat, Alternate, greedy/lazy/counted Loop, Capture, Group,
-   look-ahead and look-behind (positive and negative, nested in any way), Atomic, both conditionals,
-   Nothing/Empty/Bump, and any mixture of directions inside one tree.
+   all other anchors (incl. \G), Concat, Alternate, greedy/lazy/counted Loop, Capture, balancing
+   groups (?<g-u>...) and pure pops (?<-u>...), Group, look-ahead and look-behind (positive and
+   negative, nested in any way), Atomic, both conditionals, Nothing/Empty/Bump, and any mixture of
+   directions inside one tree.
+   (History: on the pinned code balancing groups were NOT mirror-symmetric — transferCapture's branch
+   "end <= start2" recorded a negative length when the popped capture lay to the right of the text
+   just matched, which only happens right-to-left or in look-behind; found by this proof, repaired in
+   /repo cd1c469, and [balance_span] follows the repaired code: C15_balance_span_mirror.)
 
    Side condition [st_ok e s]: 0 <= pos s <= n and every recorded capture (i, len) has
    0 <= i, 0 <= len, i + len <= n.  It is an invariant of the semantics (C15_sem_pos_in_range) and
@@ -115,21 +117,15 @@ Theorem C15_endz_no_mirror_anchor :
 Proof. exact mirror_endz_no_mirror_anchor. Qed.
 Print Assumptions C15_endz_no_mirror_anchor.
 
-(* Why recording balancing groups are excluded: (?<a>x)z(?<b-a>y) on "xzy" gives b = (1,1) = "z" (the
-   text between the popped capture and the new one), whose mirror image on "yzx" would be (1,1); the
-   mirrored search — the RightToLeft pattern (?<b-a>y)z(?<a>x) on "yzx" — records (2,-1).  The real
-   engine agrees with the model on both sides (runner.go transferCapture: "else if end <= start2
-   { start = start2 }" yields a negative length when the popped capture lies to the right). *)
-Theorem C15_balance_example :
-  let e := mirror_ex_env [120; 122; 121] 0 false in
-  let s := {| pos := 0; caps := [] |} in
-  st_ok e s /\
-  map_res (map (mirror_st e)) (sem e 10 mirror_ex_balance s)
-    = Ok [{| pos := 0; caps := [(1, []); (2, [(1, 1)])] |}] /\
-  sem (mirror_env e) 10 (flip mirror_ex_balance) (mirror_st e s)
-    = Ok [{| pos := 0; caps := [(1, []); (2, [(1, 1)])] |}].
-Proof. exact mirror_balance_example. Qed.
-Print Assumptions C15_balance_example.
+(* Balancing groups: the interval recorded for (?<g-u>...) — between the popped capture and the text
+   just matched when they are disjoint (whichever lies first), their intersection otherwise —
+   commutes with mirroring.  This is the lemma behind the NCapture case of the main theorem. *)
+Theorem C15_balance_span_mirror :
+  forall (e : env) (a b : Z) (u : Z * Z), 0 <= snd u ->
+    balance_span (tlen e - a) (tlen e - b) (mirror_span (tlen e) u)
+    = mirror_span (tlen e) (balance_span a b u).
+Proof. exact mirror_balance_span. Qed.
+Print Assumptions C15_balance_span_mirror.
 
 (* ---- non-vacuity: concrete trees and texts satisfying the hypotheses ---- *)
 
@@ -166,6 +162,22 @@ Example C15_witness_mixed :
      = Ok (Some {| pos := 0; caps := [(1, [(4, 2)]); (0, [(0, 6)])] |})
   /\ mirror_st e {| pos := 8; caps := [(1, [(2, 2)]); (0, [(2, 6)])] |}
      = {| pos := 0; caps := [(1, [(4, 2)]); (0, [(0, 6)])] |}.
+Proof. vm_compute. repeat split; reflexivity. Qed.
+
+(* Balancing group with a gap: (?<a>x)z(?<b-a>y) (a = group 1, b = group 2) on "xzy" pops a = (0,1)
+   and records b = (1,1) = "z", the text between; the mirrored search — the RightToLeft pattern
+   (?<b-a>y)z(?<a>x) on "yzx" — pops a = (2,1), which lies to the RIGHT of the y just matched, and
+   records the mirror image (1,1) = "z" as well. *)
+Example C15_witness_balance :
+  let e := mirror_ex_env [120; 122; 121] 0 false in
+  let s := {| pos := 0; caps := [] |} in
+  mirror_ok mirror_ex_balance = true
+  /\ txt (mirror_env e) = [121; 122; 120]
+  /\ sem e 10 mirror_ex_balance s = Ok [{| pos := 3; caps := [(1, []); (2, [(1, 1)])] |}]
+  /\ sem (mirror_env e) 10 (flip mirror_ex_balance) (mirror_st e s)
+     = Ok [{| pos := 0; caps := [(1, []); (2, [(1, 1)])] |}]
+  /\ mirror_st e {| pos := 3; caps := [(1, []); (2, [(1, 1)])] |}
+     = {| pos := 0; caps := [(1, []); (2, [(1, 1)])] |}.
 Proof. vm_compute. repeat split; reflexivity. Qed.
 
 (* EndZ in ECMAScript/RE2 mode: a$ (EndZ) on "ba\n" does not match there (strict), on "ba" it does;
